@@ -23,7 +23,6 @@ pub use verif::*;
 pub struct PrefixMap<P, T> {
     pub(crate) table: Table<P, T>,
     free: Vec<usize>,
-    count: usize,
 }
 
 impl<P, T> Default for PrefixMap<P, T>
@@ -34,7 +33,6 @@ where
         Self {
             table: Default::default(),
             free: Vec::new(),
-            count: 0,
         }
     }
 }
@@ -51,13 +49,13 @@ where
     /// Returns the number of elements stored in `self`.
     #[inline(always)]
     pub fn len(&self) -> usize {
-        self.count
+        self.table.count()
     }
 
     /// Returns `true` if the map contains no elements.
     #[inline(always)]
     pub fn is_empty(&self) -> bool {
-        self.count == 0
+        self.table.count() == 0
     }
 
     /// Get the value of an element by matching exactly on the prefix.
@@ -356,16 +354,14 @@ where
             match self.table.get_direction_for_insert(idx, &prefix) {
                 DirectionForInsert::Enter { next, .. } => idx = next,
                 DirectionForInsert::Reached => {
-                    let mut inc = 0;
                     let node = &mut self.table[idx];
                     // replace the prefix
                     node.prefix = prefix;
                     let old_value = node.value.take();
-                    if old_value.is_none() {
-                        inc = 1;
-                    }
                     node.value = Some(value);
-                    self.count += inc;
+                    if old_value.is_none() {
+                        self.table.inc_count();
+                    }
                     return old_value;
                 }
                 DirectionForInsert::NewLeaf { right } => {
@@ -421,10 +417,12 @@ where
             match self.table.get_direction_for_insert(idx, &prefix) {
                 DirectionForInsert::Enter { next, .. } => idx = next,
                 DirectionForInsert::Reached if self.table[idx].value.is_some() => {
+                    let (node, count) = self.table.node_and_count_mut(idx);
                     return Entry::Occupied(OccupiedEntry {
-                        node: &mut self.table[idx],
+                        node,
                         prefix,
-                    })
+                        count,
+                    });
                 }
                 direction => {
                     return Entry::Vacant(VacantEntry {
@@ -519,7 +517,7 @@ where
 
         // decrease the count if the value is something
         if value.is_some() {
-            self.count -= 1;
+            self.table.dec_count();
         }
 
         value
@@ -599,7 +597,7 @@ where
             left: None,
             right: None,
         });
-        self.count = 0;
+        self.table.reset_count();
     }
 
     /// Keep only the elements in the map that satisfy the given condition `f`.
@@ -762,13 +760,8 @@ where
         let mut to_free = vec![self.table.get_child(idx, right).unwrap()];
         self.table.clear_child(idx, right);
         while let Some(idx) = to_free.pop() {
-            let mut dec = 0;
             let node = &mut self.table[idx];
             let value = node.value.take();
-            // decrease the count if `value` is something
-            if value.is_some() {
-                dec = 1;
-            }
             if let Some(left) = node.left.take() {
                 to_free.push(left)
             }
@@ -776,7 +769,10 @@ where
                 to_free.push(right)
             }
             self.free.push(idx);
-            self.count -= dec;
+            // decrease the count if `value` is something
+            if value.is_some() {
+                self.table.dec_count();
+            }
         }
     }
 
@@ -785,7 +781,7 @@ where
     #[inline(always)]
     fn new_node(&mut self, prefix: P, value: Option<T>) -> usize {
         if value.is_some() {
-            self.count += 1;
+            self.table.inc_count();
         }
         if let Some(idx) = self.free.pop() {
             let node = &mut self.table[idx];
@@ -825,7 +821,7 @@ where
 
         // decrease the number of elements if value is something
         if value.is_some() {
-            self.count -= 1;
+            self.table.dec_count();
         }
 
         if has_left && has_right {
